@@ -29,9 +29,11 @@ from .base import XPathToken
 from .tokens import ValueToken
 
 
-# Optional whitespaces and comments (also multiline, with one level of nesting)
+# Optional whitespaces and comments (also multiline, with up to three levels of nesting)
 # that can be put between a function name and its opening parenthesis.
-_COMMENT = r'\(\:(?:[^:(]|\:(?!\))|\((?!\:)|\(\:(?:[^:]|\:(?!\)))*\:\))*\:\)'
+_COMMENT = r'\(\:(?:[^:]|\:(?!\)))*\:\)'
+for _ in range(3):
+    _COMMENT = rf'\(\:(?:[^:(]|\:(?!\))|\((?!\:)|{_COMMENT})*\:\)'
 COMMENTS_LOOKAHEAD = rf'\s*(?:{_COMMENT}\s*)*'
 
 
